@@ -68,6 +68,12 @@ public:
         {
             pdf_.emplace_back(in);
         }
+        else
+        {
+            // the pdf of the first iteration is not stored separately; restore it from the first
+            // result so that `rollback(0)` works on a checkpoint that was read from a stream
+            pdf_.push_back(this->results().front().pdf());
+        }
     }
 
     /// Returns the parameter `alpha`, which is used to refine the PDF of VEGAS after each
